@@ -70,6 +70,8 @@ RunOK(rec) ==
   /\ Clause("transaction_ids_unique", \A i, j \in DOMAIN rec.txids : i # j => rec.txids[i] # rec.txids[j])
   /\ Clause("transaction_ids_increase", \A i \in DOMAIN rec.txids : rec.txids[i] > rec.txid0)
   \* every commit that wrote the MdibVersion raised it by exactly one (concurrent writers included)
+  \* what the MDIB holds at one MdibVersion never changes (every snapshot taken at that version is the same)
+  /\ Clause("mdib_changes_only_with_a_new_version", rec.conflicts = <<>>)
   /\ Clause("one_version_per_commit", rec.mver_end = rec.mver0 + rec.nwv)
   /\ Clause("ctx_at_most_one_associated", \A i \in DOMAIN rec.ctxhist : OneAssocIn(rec.ctxhist[i]))
   /\ Clause("ctx_binding_marks", \A i \in 1..(Len(rec.ctxhist) - 1) : MarksOK(rec.ctxhist[i], rec.ctxhist[i + 1]))
